@@ -325,3 +325,67 @@ func VerifC18_V2BackupAfterDestroy() {
 	}
 	verif.Assert(gerr == nil && len(got) == 2 && verif.Eq(got[0], want[0]) && verif.Eq(got[1], want[1]), "surviving-keys-identical-and-ordered")
 }
+
+// VerifC18_V2KeyPairBackupModes: a storage key pair ring with history (optionally with a destroyed rotated key)
+// exported in public-only mode or with private keys and imported elsewhere: the target has the same current public
+// key, and with private keys the same surviving private keys in the same order.
+func VerifC18_V2KeyPairBackupModes() {
+	suite := verifSuite()
+	be := backend.NewInMemory()
+	s := verifServer(be, suite)
+	id := []byte("a")
+	for i := 0; i < 3; i++ {
+		verif.Assert(s.GenerateDataEncryptionKeys(id) == nil, "generate")
+	}
+	destroyed := verif.Choose("destroy-one", 0, 1) == 1
+	if destroyed {
+		verif.Assert(s.DestroyRotatedClientIDEncryptionKeyPair(id, 2) == nil, "destroy-oldest")
+	}
+	wantPub, err := s.GetClientIDEncryptionPublicKey(id)
+	wantPriv, err2 := s.GetServerDecryptionPrivateKeys(id)
+	if err != nil || err2 != nil {
+		verif.Assert(false, "source-keys")
+		return
+	}
+	publicOnly := verif.Choose("public-only", 0, 1) == 1
+	bk, _ := NewKeyBackuper("", "", s)
+	var backup *keystoreV1.KeysBackup
+	if publicOnly {
+		backup, err = bk.Export([]keystoreV1.ExportID{{KeyKind: keystoreV1.KeyStoragePublic, ContextID: id}}, keystoreV1.ExportPublicOnly)
+	} else {
+		backup, err = bk.Export([]keystoreV1.ExportID{{KeyKind: keystoreV1.KeyStoragePrivate, ContextID: id}}, keystoreV1.ExportPrivateKeys)
+	}
+	verif.Reach("exported")
+	verif.Assert(err == nil, "export-no-error")
+	if err != nil {
+		return
+	}
+	suite2, err := crypto.NewSCellSuite(verif.Bytes("master2-enc", 32), verif.Bytes("master2-sig", 32))
+	if err != nil {
+		return
+	}
+	be2 := backend.NewInMemory()
+	t := verifServer(be2, suite2)
+	bk2, _ := NewKeyBackuper("", "", t)
+	_, err = bk2.Import(backup)
+	verif.Assert(err == nil, "import-no-error")
+	if err != nil {
+		return
+	}
+	t = verifServer(be2, suite2)
+	gotPub, err := t.GetClientIDEncryptionPublicKey(id)
+	verif.Reach("imported")
+	verif.Assert(err == nil, "target-has-the-public-key")
+	if err == nil {
+		verif.Assert(verif.Eq(gotPub.Value, wantPub.Value), "target-public-key-identical")
+	}
+	if !publicOnly {
+		gotPriv, err := t.GetServerDecryptionPrivateKeys(id)
+		verif.Assert(err == nil && len(gotPriv) == len(wantPriv), "target-has-the-private-keys")
+		if err == nil && len(gotPriv) == len(wantPriv) {
+			for i := range wantPriv {
+				verif.Assert(verif.Eq(gotPriv[i].Value, wantPriv[i].Value), "target-private-keys-identical-and-ordered")
+			}
+		}
+	}
+}
